@@ -49,6 +49,14 @@ def _variants(prop):
     from selftest import benign
     for name, edits in benign.VARIANTS.get(prop, []):
         out.append(('G', name, edits))
+    # behaviour-preserving refactorings written by independent sub-agents
+    # (benign/<id>-<k>/patch.diff; the suite passes with each of them)
+    bdir = os.path.join(VERIF, 'benign')
+    if os.path.isdir(bdir):
+        for d in sorted(os.listdir(bdir)):
+            p = os.path.join(bdir, d, 'patch.diff')
+            if d.split('-')[0] == prop and os.path.exists(p):
+                out.append(('GP', 'benign/' + d, p))
     return out
 
 
@@ -57,7 +65,7 @@ def _prepare(repo, kind, payload):
     tmp = tempfile.mkdtemp(prefix='dlint-variant-')
     shutil.copytree(os.path.join(repo, 'desper'), os.path.join(tmp, 'desper'),
                     ignore=shutil.ignore_patterns('__pycache__'))
-    if kind == 'B':
+    if kind in ('B', 'GP'):
         r = subprocess.run(['patch', '-p1', '--batch', '-s', '--no-backup-if-mismatch',
                             '-i', payload], cwd=tmp, capture_output=True,
                            text=True)
